@@ -89,7 +89,7 @@ def rotate_strategy(n):
 
 
 @st.composite
-def atom(draw, nmin=1, nmax=8, small=False, routes=None, allow_tiny=True, methods=None, min_gap=0.02):
+def atom(draw, nmin=1, nmax=8, small=False, routes=None, allow_tiny=True, methods=None, min_gap=0.02, orders=("asc",)):
     rad = draw(radial(nmin=nmin, nmax=nmax, allow_tiny=allow_tiny, min_gap=min_gap))
     n = len(rad["r"])
     method = draw(st.sampled_from(list(methods or dl.METHODS)))
@@ -117,6 +117,15 @@ def atom(draw, nmin=1, nmax=8, small=False, routes=None, allow_tiny=True, method
     out["center"] = draw(center_strategy())
     out["rotate"] = draw(rotate_strategy(n))
     out["as_array"] = draw(st.booleans())
+    # order of the radial nodes inside the OneDGrid: a radial grid need not be ascending (a decreasing transform such
+    # as MultiExp hands out descending nodes); shells follow the order of the nodes
+    order = draw(st.sampled_from(list(orders)))
+    k = draw(st.integers(1, max(1, n - 1)))
+    if n > 1 and order != "asc":
+        perm = list(range(n))[::-1] if order == "desc" else (list(range(k, n)) + list(range(k))[::-1])
+        out["r"] = [out["r"][i] for i in perm]
+        out["w"] = [out["w"][i] for i in perm]
+        out["node_order"] = order
     return out
 
 
